@@ -51,7 +51,9 @@ class C13(Hist1Prop):
         wk = rng.choice(["none", "int32", "int64", "float32", "float64"])
         ws = None if wk == "none" else [rng.randint(0, 6) if wk.startswith("int") else rng.randint(0, 24) / 4 for _ in range(n)]
         dt = rng.choice([None, None, "int16", "int32", "int64", "float32", "float64"])
-        ops = [rng.choice(["mul_int", "mul_float", "div", "normalize", "add_int", "add_float", "projection"]) for _ in range(rng.randint(0, 3))]
+        ops = [rng.choice(["mul_int", "mul_float", "div", "normalize", "add_int", "add_float", "projection",
+                           "fill_pyint", "fill_pyfloat", "fill_float32", "fill_float16", "fill_int32", "fill_n_int", "fill_n_float32",
+                           "fill_n_float64"]) for _ in range(rng.randint(0, 3))]
         return {"kind": "nd_dtype", "d": d, "rows": rows, "wk": wk, "ws": ws, "dtype": dt, "steps": ops,
                 "ops": [], "tags": ["nd", f"d:{d}", f"weights:{wk}", f"dtype:{dt}"]}
 
@@ -94,6 +96,24 @@ class C13(Hist1Prop):
                         x = x + other_i
                     elif st == "add_float":
                         x = x + other_f
+                    elif st.startswith("fill"):
+                        pt = [0.5] * x.ndim
+                        if x.ndim == 1:
+                            pt = 0.5
+                        cell = (0,) * x.ndim
+                        f0 = float(x.frequencies[cell])
+                        if st.startswith("fill_n"):
+                            wdt = {"fill_n_int": np.int64, "fill_n_float32": np.float32, "fill_n_float64": np.float64}[st]
+                            wv = np.array([1 if st == "fill_n_int" else 0.5, 2 if st == "fill_n_int" else 0.25], dtype=wdt)
+                            x.fill_n(np.array([pt, pt]) if x.ndim > 1 else np.array([pt, pt]), weights=wv)
+                            added = float(wv.sum())
+                        else:
+                            wv = {"fill_pyint": 2, "fill_pyfloat": 0.5, "fill_float32": np.float32(0.5), "fill_float16": np.float16(0.5),
+                                  "fill_int32": np.int32(3)}[st]
+                            x.fill(pt, weight=wv)
+                            added = float(wv)
+                        out["steps"].append({"op": st, "ret": "ok", "before": before, "after": snap(x), "cell0": [f0, float(x.frequencies[cell]), added]})
+                        continue
                     elif st == "projection" and x.ndim < 2:
                         continue          # a 1-D projection has no further projections
                     elif st == "projection":
@@ -133,6 +153,13 @@ class C13(Hist1Prop):
                 fails.append(f"refused_valid: N-d {stp['op']} refused: " + "; ".join(io["log"][:1]))
                 continue
             kb, ka = np.dtype(b["dtype"]).kind, np.dtype(a["dtype"]).kind
+            if stp["op"].startswith("fill"):
+                f0, f1, added = stp["cell0"]
+                if abs(f1 - (f0 + added)) > 1e-6 * max(1, abs(f1)):
+                    fails.append(f"truncated: N-d {stp['op']} on {b['dtype']}: content {f0} + weight {added} became {f1} (dtype {a['dtype']})")
+                if stp["op"] in ("fill_pyint", "fill_int32", "fill_n_int") and kb == "i" and ka != "i":
+                    fails.append(f"not_integral: N-d {stp['op']} on {b['dtype']} gave {a['dtype']} (integer weights must keep an integer histogram)")
+                continue
             if stp["op"] in ("mul_float", "div", "normalize", "add_float") and ka != "f":
                 fails.append(f"truncated: N-d {stp['op']} on {b['dtype']} gave {a['dtype']} (must be float)")
             if stp["op"] in ("mul_int", "add_int", "projection") and kb == "i" and ka != "i":
